@@ -318,15 +318,19 @@ class Run(RunBase):
         fresh_obs = [rebuild_obstacle(o) for o in sc.obstacles]
         for t in ts:
             got = ans(lambda: [occ_desc(o) for o in sc.occupancies_at_time_step(t)])
-            exp = [occ_desc(o.occupancy_at_time(t)) for o in fresh_obs if o.occupancy_at_time(t) is not None]
+            exp = ans(lambda: [occ_desc(o.occupancy_at_time(t)) for o in fresh_obs
+                               if o.occupancy_at_time(t) is not None])
             self._cmp("scenario.occupancies_at_time_step", got, exp, f"scenario occupancies at t={t}")
             gs = ans(lambda: {k: state_desc(v) for k, v in sc.obstacle_states_at_time_step(t).items()})
-            es = {}
-            for o in fresh_obs:
-                if isinstance(o, DynamicObstacle) and o.state_at_time(t) is not None:
-                    es[o.obstacle_id] = state_desc(o.state_at_time(t))
-                elif isinstance(o, StaticObstacle):
-                    es[o.obstacle_id] = state_desc(o.initial_state)
+            def fresh_states():
+                es = {}
+                for o in fresh_obs:
+                    if isinstance(o, DynamicObstacle) and o.state_at_time(t) is not None:
+                        es[o.obstacle_id] = state_desc(o.state_at_time(t))
+                    elif isinstance(o, StaticObstacle):
+                        es[o.obstacle_id] = state_desc(o.initial_state)
+                return es
+            es = ans(fresh_states)
             self._cmp("scenario.obstacle_states_at_time_step", gs, es, f"scenario obstacle states at t={t}")
         self.warm.update({"scenario.occupancies_at_time_step", "scenario.obstacle_states_at_time_step"})
 
@@ -791,7 +795,21 @@ def _mutator(rng, run, cfg):
                 continue
             cyc = [[rng.pick(gen.LIGHT_STATES[:4]), rng.randint(1, 5)] for _ in range(rng.randint(1, 4))]
             if k == "set_cycle":
-                yield {"op": k, "id": rng.pick(lts), "cycle": cyc}
+                lid = rng.pick(lts)
+                cur = [[e.state.name, e.duration] for e in
+                       run.sc.lanelet_network.find_traffic_light_by_id(lid).traffic_light_cycle.cycle_elements]
+                r = rng.random()
+                if r < 0.25 and len(cur) > 1:
+                    cyc = list(cur)
+                    rng.shuffle(cyc)  # the same elements in another order
+                elif r < 0.4 and len(cur) > 1:
+                    j = rng.randrange(len(cur))
+                    cyc = cur[:j] + cur[j + 1:]  # one phase dropped
+                elif r < 0.55:
+                    cyc = cur + [list(rng.pick(cur))]  # one phase repeated
+                elif r < 0.65:
+                    cyc = [[n, d + 1] for n, d in cur]  # same states, other durations
+                yield {"op": k, "id": lid, "cycle": cyc}
             elif k == "set_offset":
                 yield {"op": k, "id": rng.pick(lts), "offset": rng.randint(0, 8)}
             else:
